@@ -13,7 +13,7 @@ from .api import Ty, Contract
 from .interp import Interp, PyRaise, Closure, BoundMethod
 from .loops import _call_pred, _param_names
 from .path import PathState, PathAbort, RetryPath, Unsupported
-from .values import SBool, SInt, Sym, SOpt, SChoice, to_z3, wrap
+from .values import SBool, SInt, Sym, SOpt, SChoice, contains_sym, to_z3, wrap
 
 MAX_PATHS = 4000
 
@@ -159,10 +159,27 @@ def _havoc_modified(interp, c, bound):
         if parts[0] not in bound:
             raise Unsupported('modifies %r of %s: no such parameter' % (path, c.qname))
         obj = bound[parts[0]]
+        owner = None
+        ty = c.params.get(parts[0])
         for a in parts[1:]:
+            owner = obj
             obj = interp.getattr(obj, a)
+            ty = getattr(ty, 'fields', {}).get(a)
         if isinstance(obj, (SOpt, SChoice)):
             obj = interp.resolve(obj)
+        if type(obj) is list and owner is not None and not contains_sym(obj, 0) and hasattr(ty, 'shape'):
+            # a concrete list held in a field of an object (e.g. Partitioning([], [], [])): it becomes a symbolic
+            # mutable list in that field.  Sound only if the field is the single reference to the list object:
+            # checked (references: the field, the variable `obj`, the argument of getrefcount).
+            import sys
+            if sys.getrefcount(obj) > 3:
+                raise Unsupported('contract %s modifies %r: the concrete list in that field is referenced from '
+                                  'elsewhere too' % (c.qname, path))
+            from .mlist import from_concrete
+            m = from_concrete(interp, obj, path) if obj else MList(interp, st.fresh_name(path), ty.shape())
+            m.is_deque = getattr(ty, 'deque', False)
+            interp.setattr(owner, parts[-1], m)
+            obj = m
         if isinstance(obj, MList):
             obj.havoc(interp, tag)
         elif isinstance(obj, SIter):
